@@ -699,10 +699,10 @@ def run_search(repo, rep, name, dwc):
         continue
       # the constraint is consulted somewhere in the search (or the search calls design_within_constraints on other
       # operands) in a form the rule does not understand: undecided; never consulted: violation
-      near = set(g.loop_body_nodes(outer)) | set(view.doms.get(P_.node, ()))
+      near = set(g.loop_body_nodes(outer))        # uses before the loop (e.g. filling in defaults) are not enforcement
       consulted = [m for m in kappa_mentions(f, kappa) if (m is None or m in near)
                    and not (m is not None and m.kind == 'stmt' and isinstance(m.ast, ast.Assign) and isinstance(m.ast.value, ast.Attribute))]
-      dwc_calls = [c_ for n_ in g.nodes for e_ in FuncCtx.node_exprs(n_) for c_ in au.calls_in(e_) if norm(c_.func).endswith('design_within_constraints')]
+      dwc_calls = [c_ for n_ in near for e_ in FuncCtx.node_exprs(n_) for c_ in au.calls_in(e_) if norm(c_.func).endswith('design_within_constraints')]
       if consulted or (dwc_calls and (dwc.get(kappa) is not None or kappa in dwc.get('#incomplete', {}))):
         rep.undecided('R2/must-pass', '%s: %s' % (name, kappa),
                       '%s is consulted in %s%s but no test guarding the push on (%s, %s) was recognised' % (kappa, name, ' (through design_within_constraints)' if dwc_calls else '', T, C),
